@@ -172,25 +172,24 @@ func genC06(tier string) []*batch.Case {
 			})
 		}
 	}
-	// nested indexing on a list of lists
-	zlAlias := &Type{K: KList, Elem: Zahl, Alias: "ZahlenReihe"}
-	llt := ListOf(zlAlias)
-	add("nested-rvalue", "(ll an der Stelle i) an der Stelle j", 2, false, nil, []*Type{zlAlias}, nil, func(p string, n, i, j *Var) []Stmt {
-		ll, row, k := vr(p+"_ll", llt), vr(p+"_row", zlAlias), vr(p+"_k", Zahl)
-		return seq(one(&VarDecl{Name: ll.Name, T: llt, Init: &ListLit{T: llt}}),
+	// nested indexing: a Buchstabe of a Text element of a list
+	tlt := ListOf(Text)
+	buildTL := func(p string, ll *Var, n *Var) []Stmt {
+		k := vr(p+"_k", Zahl)
+		row := vr(p+"_row", Text)
+		return seq(one(&VarDecl{Name: ll.Name, T: tlt, Init: &ListLit{T: tlt}}),
 			one(&For{Var: k.Name, T: Zahl, From: zl(1), To: n, Body: seq(
-				c06BuildList(row, c06Elems()[0], k, p+"r"),
-				one(&Assign{Target: ll, Val: &Bin{Op: "verkettet", L: ll, R: &ListLit{T: llt, El: []Expr{row}}, T: llt}}))}),
-			pr(&Bin{Op: "index", L: &Bin{Op: "index", L: ll, R: i, T: zlAlias}, R: j, T: Zahl}))
+				c06BuildText(row, k, p+"r"),
+				one(&Assign{Target: ll, Val: &Bin{Op: "verkettet", L: ll, R: row, T: tlt}}))}))
+	}
+	add("nested-rvalue", "(tl an der Stelle i) an der Stelle j", 2, false, nil, nil, nil, func(p string, n, i, j *Var) []Stmt {
+		ll := vr(p+"_ll", tlt)
+		return seq(buildTL(p, ll, n), pr(&Bin{Op: "index", L: &Bin{Op: "index", L: ll, R: i, T: Text}, R: j, T: Char}))
 	})
-	add("nested-assign", "Speichere x in ll an der Stelle i, an der Stelle j", 2, false, nil, []*Type{zlAlias}, nil, func(p string, n, i, j *Var) []Stmt {
-		ll, row, k, e := vr(p+"_ll", llt), vr(p+"_row", zlAlias), vr(p+"_k", Zahl), vr(p+"_e", zlAlias)
-		return seq(one(&VarDecl{Name: ll.Name, T: llt, Init: &ListLit{T: llt}}),
-			one(&For{Var: k.Name, T: Zahl, From: zl(1), To: n, Body: seq(
-				c06BuildList(row, c06Elems()[0], k, p+"r"),
-				one(&Assign{Target: ll, Val: &Bin{Op: "verkettet", L: ll, R: &ListLit{T: llt, El: []Expr{row}}, T: llt}}))}),
-			one(&Assign{Target: &Bin{Op: "index", L: &Bin{Op: "index", L: ll, R: i, T: zlAlias}, R: j, T: Zahl}, Val: zl(-5)}),
-			one(&ForEach{Var: e.Name, T: zlAlias, In: ll, Body: c06Dump(p+"x", e)}))
+	add("nested-assign", "Speichere c in tl an der Stelle i, an der Stelle j", 2, false, nil, nil, nil, func(p string, n, i, j *Var) []Stmt {
+		ll := vr(p+"_ll", tlt)
+		return seq(buildTL(p, ll, n),
+			one(&Assign{Target: &Bin{Op: "index", L: &Bin{Op: "index", L: ll, R: i, T: Text}, R: j, T: Char}, Val: cl('€')}), c06Dump(p, ll))
 	})
 	// Text
 	for _, byteIdx := range []bool{false, true} {
